@@ -152,6 +152,9 @@ var c12Actions = []struct {
 	{"function-error", "ints(3, 1)", false, ""},
 	{"function-error", `map("a")`, false, ""},
 	{"function-error", "isset()", false, ""},
+	{"function-error", "wrappedfn()", false, ""},
+	{"function-error", "fstr | wrappedfn", false, ""},
+	{"function-error", "x := wrappedfn(1, 2)", false, ""},
 }
 
 type c12Gen struct {
@@ -213,7 +216,13 @@ func (g *c12Gen) nest(depth int, inner []*mj.Node) []*mj.Node {
 
 func genC12(t *rapid.T) c12Case {
 	g := &c12Gen{t: t, labels: map[string]bool{}}
-	g.p = &mj.Program{Entry: "/main.jet", Vars: map[string]mj.Recipe{}}
+	pMain, pLib, pPart, pBase := "/main.jet", "/lib/blocks.jet", "/inc/deep/part.jet", "/layouts/base.jet"
+	if g.n(0, 5, "percentInPaths") == 0 {
+		// template names with a percent sign (URL-escaped names, "50%off"): a name is data, wherever it is reported
+		pMain, pLib, pPart, pBase = "/m%sain.jet", "/lib/100%d/blocks.jet", "/inc/50%off/part%20one.jet", "/layouts/caf%C3%A9.jet"
+		g.labels["percent-sign-in-template-names"] = true
+	}
+	g.p = &mj.Program{Entry: pMain, Vars: map[string]mj.Recipe{}}
 	failVars(g.p)
 	g.p.Vars["fstr"] = mj.RStr("str")
 	g.p.Vars["fzero"] = mj.RInt(0)
@@ -244,13 +253,13 @@ func genC12(t *rapid.T) c12Case {
 	core := g.nest(depth, []*mj.Node{mj.Text(g.id("before-on-same-line ")), fail, mj.Text(" after-on-same-line")})
 	content := append(append(g.filler(), core...), g.filler()...)
 	content = append(content, mj.Text("\nTAIL must not be rendered\n"))
-	lib := &mj.File{Path: "/lib/blocks.jet", Body: []*mj.Node{
+	lib := &mj.File{Path: pLib, Body: []*mj.Node{
 		mj.Text("import text\n"),
 		{K: "block", Name: "wrap", Body: []*mj.Node{mj.Text("{w:"), {K: "ycontent"}, mj.Text(":w}")}},
 		{K: "block", Name: "pblock", Params: []mj.Param{{Name: "p", E: mj.Str("pd")}}, Body: []*mj.Node{mj.Text("pblock")}},
 		{K: "block", Name: "nblock", Body: []*mj.Node{mj.Text("nblock")}},
 	}}
-	main := &mj.File{Path: "/main.jet", Imports: []string{"/lib/blocks.jet"}}
+	main := &mj.File{Path: pMain, Imports: []string{pLib}}
 	g.p.Files = []*mj.File{main, lib}
 	if g.p.PriorEntry != "" {
 		g.p.Files = append(g.p.Files, &mj.File{Path: "/prior.jet", Body: []*mj.Node{mj.Text("prior "), mj.Print(mj.Field("Name"))}})
@@ -260,21 +269,21 @@ func genC12(t *rapid.T) c12Case {
 	case "main":
 		main.Body = content
 	case "included":
-		part := &mj.File{Path: "/inc/deep/part.jet", Body: content}
+		part := &mj.File{Path: pPart, Body: content}
 		g.p.Files = append(g.p.Files, part)
-		main.Body = append(append(g.filler(), &mj.Node{K: "include", E: mj.Str("inc/deep/part.jet")}), mj.Text("after include"))
+		main.Body = append(append(g.filler(), &mj.Node{K: "include", E: mj.Str(pPart[1:])}), mj.Text("after include"))
 	case "imported-block":
 		lib.Body = append(lib.Body, mj.Text("\n\n"), &mj.Node{K: "block", Name: "libblk", Body: content})
 		main.Body = append(append(g.filler(), &mj.Node{K: "yield", Name: "libblk"}), mj.Text("after yield"))
 	case "layout-root":
-		base := &mj.File{Path: "/layouts/base.jet", Imports: []string{"/lib/blocks.jet"}, Body: content}
+		base := &mj.File{Path: pBase, Imports: []string{pLib}, Body: content}
 		g.p.Files = append(g.p.Files, base)
-		main.Extends = "/layouts/base.jet"
+		main.Extends = pBase
 		main.Body = []*mj.Node{mj.Text("ignored\n")}
 	case "leaf-block":
-		base := &mj.File{Path: "/layouts/base.jet", Body: append(append(g.filler(), &mj.Node{K: "block", Name: "slot", Body: []*mj.Node{mj.Text("default")}}), mj.Text("after slot"))}
+		base := &mj.File{Path: pBase, Body: append(append(g.filler(), &mj.Node{K: "block", Name: "slot", Body: []*mj.Node{mj.Text("default")}}), mj.Text("after slot"))}
 		g.p.Files = append(g.p.Files, base)
-		main.Extends = "/layouts/base.jet"
+		main.Extends = pBase
 		main.Body = append(g.filler(), &mj.Node{K: "block", Name: "slot", Body: content})
 	}
 	c := c12Case{Prog: g.p, Role: role, Action: a.src, Class: a.class, PosChk: a.pos}
